@@ -292,8 +292,13 @@ def run_c02(chk, tier, seed):
         # (a) all single-unit messages, valid or not
         s1 = run_projection(chk, "C02", f"{name}-single", ft, cands, defs, all_units, "{}", 1, ["", "\n"], [-1], ["--history"])
         # (b) valid first unit followed by any second (and third in thorough) unit: relative resolution
-        s2 = run_projection(chk, "C02", f"{name}-multi", ft, cands, defs, first, nxt, 3 if th else 2, [""], [-1], ["--history"])
+        s2 = run_projection(chk, "C02", f"{name}-multi", ft, cands, defs, first, nxt, 2, [""], [-1], ["--history"])
         total += s1["executed"] + s2["executed"]
+        if th and name in ("defaults", "anon2", "rootdef", "suffix"):
+            # three units: the level must follow the *previous* unit, not an earlier one
+            nxt3 = "{Mk(l, p, FALSE) : l \\in {0, 1}, p \\in PHdrs(1)} \\cup {Mk(0, <<c>>, FALSE) : c \\in Commons} \\cup {Mk(0, p, TRUE) : p \\in PHdrs(2)}"
+            s4 = run_projection(chk, "C02", f"{name}-triple", ft, cands, defs, first, nxt3, 3, [""], [-1])
+            total += s4["executed"]
     # spelling richness: every spelling variant on valid headers of one tree each
     for name in ("defaults", "suffix", "flat"):
         tree = TREES[name]
